@@ -425,6 +425,15 @@ class Effects:
                     s.external_stateful.append((r, name, call.lineno))
             return
         callee = kind[2] if kind[0] == 'class' else kind[1]
+        if kind[0] == 'class' and callee is None and len(call.args) == 1 and not call.keywords and \
+                (kind[1].qual in self.idx.enums or kind[1].name in self.idx.enums):
+            # Enum(value): a lookup by value, ValueError when no member has it -- unless the argument already is a member
+            a = call.args[0]
+            member = isinstance(a, ast.Attribute) and a.attr.isupper()
+            if not member and not self._catches(caught, "ValueError"):
+                cond = ('unless_typed', a.id, kind[1].qual) if isinstance(a, ast.Name) else None
+                s.raises.append(RaiseSite("ValueError", cond, f"{kind[1].site} (lookup by value)", call.lineno))
+            return
         if callee is None:
             return
         s.calls.append((callee, call.lineno))
